@@ -58,6 +58,16 @@ pub fn own_scenarios() -> Vec<Scenario> {
             &["-r", "-w", "2", "src", "nowhere/dst"],
         ));
         v.push(dr(
+            "block-size-zero",
+            vec![Entry::dir("src"), Entry::file("src/a", "0123456789"), Entry::file("src/e", "")],
+            &["-r", "-w", "2", "--block-size", "0", "src", "dst"],
+        ));
+        for upd in ["noop", "rec", "chan"] {
+            let mut s = Scenario::new(&format!("api-block-size-zero-{}-{}", upd, d), vec![Entry::dir("src"), Entry::file("src/a", "0123456789"), Entry::file("src/e", "")], &["copy", d, "2", "0", upd, "dst", "src"]);
+            s.prog = crate::scen::Prog::ApiProbe;
+            v.push(s);
+        }
+        v.push(dr(
             "many-small-w3",
             (0..12).map(|i| Entry::file(&format!("src/f{:02}", i), "0123456789abcdef")).fold(vec![Entry::dir("src")], |mut a, e| {
                 a.push(e);
